@@ -408,10 +408,6 @@ def evaluate(lines):
             good = len(t) == 4 and t[0] == "ok" and t[1] == "65536" and t[2] == "0"
             out.append((o, o, {"C17": "ok" if good else "fail:closed-form-mismatch at " + (t[3] if len(t) > 3 else "?")}, {"C17": "ok"}))
             continue
-        if k in ("view", "conv", "new", "hdr"):
-            p = "C19" if k == "conv" else "C18"
-            iv = {p: py_verdict(p, l, o)}
-            mv = {p: py_verdict(p, l, m)}
         out.append((o, m, iv, mv))
     return out
 
@@ -1021,108 +1017,4 @@ def replay(path):
     return 1 if bad else 0
 
 
-# ----------------------------------------------------------------------------- C18 / C19 judged here
-# (finite closed forms: the specification is the layout table / the code-point tables)
-
 _addr = {}
-TYPE_VALUE = {"control": 0x00, "spdm": 0x05, "secured": 0x06, "pci": 0x7E, "iana": 0x7F, "invalid": 0xFF}
-# DSP0236 table 12 / DSP0239 / DSP0236 table 13: code point -> the library's variant name
-CMD_NAMES = ["Reserved", "SetEndpointID", "GetEndpointID", "GetEndpointUUID", "GetMCTPVersionSupport",
-             "GetMessageTypeSupport", "GetVendorDefinedMessageSupport", "ResolveEndpointID", "AllocateEndpointIDs",
-             "RoutingInformationUpdate", "GetRoutingTableEntries", "PrepareForEndpointDiscovery", "EndpointDiscovery",
-             "DiscoveryNotify", "GetNetworkID", "QueryHop", "ResolveUUID", "QueryRateLimit", "RequestTXRateLimit",
-             "UpdateRateLimit", "QuerySupportedInterfaces"]
-MSG_NAMES = {0x00: "MCtpControl", 0x05: "SpdmOverMctp", 0x06: "SecuredMessages", 0x7E: "VendorDefinedPCI", 0x7F: "VendorDefinedIANA"}
-CC_NAMES = ["Success", "Error", "ErrorInvalidData", "ErrorInvalidLength", "ErrorNotReady", "ErrorUnsupportedCmd"]
-CMD_CODES = set(range(0x00, 0x15))
-MSG_CODES = {0x00, 0x05, 0x06, 0x7E, 0x7F}
-
-
-def py_verdict(prop, line, o):
-    t = line.split()
-    try:
-        if prop == "C19" and t[0] == "conv":
-            b = int(t[2], 16)
-            if t[1] == "cmd":
-                want = "%02x %s" % (b, CMD_NAMES[b]) if b in CMD_CODES else "ff Unknown"
-                return "ok" if o == want else "fail:command-code-table"
-            if t[1] == "msg":
-                want = "%02x %s" % (b, MSG_NAMES[b]) if b in MSG_CODES else "ff Invalid"
-                return "ok" if o == want else "fail:message-type-table"
-            if t[1] == "cc":
-                if b <= 5:
-                    return "ok" if o == "%02x %s" % (b, CC_NAMES[b]) else "fail:completion-code-table"
-                return "na"    # C19 constrains code points 0-5 only; the panic above 5 is C10's finding D10
-        if prop == "C18" and t[0] == "view" and t[1] in ("get", "set"):
-            # a backing buffer that does not reach the field's highest byte: index out of bounds in the
-            # file declaring the view, nothing else
-            raw_tok = t[3] if t[1] == "get" else t[4]
-            n_raw = 0 if raw_tok == "-" else len(raw_tok) // 2
-            lay0 = gen.LAYOUT.get(t[2])
-            top = lay0[0] if lay0 else (1 if t[2].startswith("pci") else 3)
-            if n_raw <= top:
-                view = t[2].split(".")[0]
-                vfile = {"smbus": "smbus_proto.rs", "routing": "smbus_proto.rs", "transport": "base_packet.rs", "body": "base_packet.rs",
-                         "ctrl": "control_packet.rs", "pci": "vendor_packets.rs", "iana": "vendor_packets.rs"}[view]
-                return "ok" if o == "panic oob " + vfile else "fail:short-view"
-        if prop == "C18" and t[0] == "view":
-            if t[1] == "get":
-                raw = bytes.fromhex(t[3])
-                lay = gen.LAYOUT.get(t[2])
-                if lay:
-                    k, lo, w = lay
-                    want = (raw[k] >> lo) & ((1 << w) - 1)
-                else:
-                    want = int.from_bytes(raw[:2] if t[2].startswith("pci") else raw[:4], "big")
-                return "ok" if o == str(want) else "fail:getter-layout"
-            if t[1] == "set":
-                v = int(t[3], 16)
-                raw = bytearray.fromhex(t[4])
-                lay = gen.LAYOUT.get(t[2])
-                if lay:
-                    k, lo, w = lay
-                    mask = ((1 << w) - 1) << lo
-                    raw[k] = (raw[k] & ~mask & 0xFF) | (((v & 0xFF) << lo) & mask)
-                elif t[2].startswith("pci"):
-                    raw[0:2] = (v & 0xFFFF).to_bytes(2, "big")
-                else:
-                    raw[0:4] = (v & 0xFFFFFFFF).to_bytes(4, "big")
-                return "ok" if o == raw.hex() else "fail:setter-layout"
-            if t[1] == "tfb":
-                raw = bytes.fromhex(t[2])
-                ver = int(t[3], 16)
-                want = (raw[0] & 0xF0) == 0 and (raw[0] & 0x0F) == ver
-                return "ok" if o == ("ok" if want else "err") else "fail:transport-validator"
-            if t[1] == "bfb":
-                b = int(t[2], 16)
-                want = (b & 0x80) == 0 and (b & 0x7F) in MSG_CODES
-                return "ok" if o == ("ok" if want else "err") else "fail:body-validator"
-        if prop == "C18" and t[0] == "new":
-            if t[1] == "ctrl":
-                want = bytes([(int(t[2]) << 7) | (int(t[3]) << 6) | (int(t[4], 16) & 0x1F), int(t[5], 16)]).hex()
-            elif t[1] == "transport":
-                want = bytes([int(t[2], 16) & 0x0F, 0, 0, 0]).hex()
-            elif t[1] == "body":
-                want = "panic explicit base_packet.rs" if t[2] == "1" else "%02x" % (TYPE_VALUE[t[3]] & 0x7F)
-            elif t[1] == "routing":
-                want = bytes([int(t[2], 16) & 0x0F, int(t[3], 16), int(t[4], 16), int(t[5], 16)]).hex()
-            elif t[1] == "pci":
-                want = (int(t[2], 16) & 0xFFFF).to_bytes(2, "big").hex()
-            elif t[1] == "iana":
-                want = (int(t[2], 16) & 0xFFFFFFFF).to_bytes(4, "big").hex()
-            else:
-                return "na"
-            return "ok" if o == want else "fail:constructor-layout"
-        if prop == "C18" and t[0] == "hdr":
-            a = _addr.get(t[2])
-            d = int(t[3], 16)
-            if a is None:
-                return "na"
-            if t[1] == "smbus":
-                want = bytes([((d & 0x7F) << 1) & 0xFF, 0x0F, 0, ((a & 0x7F) << 1) | 1]).hex()
-            else:
-                want = bytes([0x01, d, a, 0xC8]).hex()
-            return "ok" if o == want else "fail:header-generator"
-    except (ValueError, IndexError, KeyError):
-        return "fail:unparsed-observation"
-    return "na"
